@@ -109,6 +109,7 @@ fn main() {
                     }
                 }
                 "C20" => c20::record(n, &mut out),
+                "C05dates" => writeln!(out, "{}", lifecycle::expiry_sweep(n)).unwrap(),
                 "VERIFY" => {
                     // random pipeline runs beyond the TLC bounds, as a trace for Trace_Verify
                     let mut rng = common::rng(77);
